@@ -235,6 +235,26 @@ type Env struct {
 	FieldType func(string) types.Type
 	CellType  func(string) types.Type
 	UserSig   map[string]*types.Signature
+	Idents    map[string]bool // when set: the identifiers the function under contract can name (lock names are checked against it)
+}
+
+// lockKnown: a lock named by heldat / notheldat exists for this function (otherwise the clause does not bind: a renamed
+// mutex must not read as "never held").
+func (e *Env) lockKnown(name string) bool {
+	if e.Idents == nil || e.Idents[name] || e.Fields[name] {
+		return true
+	}
+	if i := strings.IndexAny(name, ".["); i > 0 && (e.Idents[name[:i]] || e.Fields[name[:i]] || name[:i] == e.Recv) {
+		return true
+	}
+	for _, ev := range e.Events {
+		for _, h := range ev.Held {
+			if h == name {
+				return true
+			}
+		}
+	}
+	return e.St != nil && e.St.Held[name]
 }
 
 func (e *Env) sub() *Env {
@@ -788,6 +808,9 @@ func (e *Env) callExpr(ex *ast.CallExpr) (SVal, error) {
 		return mkBool(boolLit(lastA < firstB)), nil
 	case "heldat":
 		// heldat(lock, EventPattern): the lock is held at every matching event
+		if !e.lockKnown(argStr(0)) {
+			return SVal{}, fmt.Errorf("unknown identifier %s (a lock named by heldat)", argStr(0))
+		}
 		pat := e.resolveEventName(argStr(1))
 		for _, ev := range e.Events {
 			if eventNameMatch(pat, ev.Name) {
@@ -804,6 +827,9 @@ func (e *Env) callExpr(ex *ast.CallExpr) (SVal, error) {
 		}
 		return mkBool("true"), nil
 	case "notheldat":
+		if !e.lockKnown(argStr(0)) {
+			return SVal{}, fmt.Errorf("unknown identifier %s (a lock named by notheldat)", argStr(0))
+		}
 		pat := e.resolveEventName(argStr(1))
 		for _, ev := range e.Events {
 			if eventNameMatch(pat, ev.Name) {
